@@ -537,9 +537,9 @@ class H2Server:
         elif pol == "none":
             pass
 
-    def _send_settings(self, s: dict) -> None:
+    def _send_settings(self, s: dict, delay: float = 0.0) -> None:
         self.conn.update_settings(s)
-        self._flush()
+        self._flush(delay)
         self.ledger.server_sent_settings(s, self.tr.produced)
 
     # scripted actions --------------------------------------------------------------
@@ -587,7 +587,7 @@ class H2Server:
                     # exactly when the client has agreed to it.
                     self.deferred_settings.append(s)
                 else:
-                    self._send_settings(s)
+                    self._send_settings(s, act.get("delay", 0.0))
             elif do == "early":
                 # the server answers at once, before the request body has arrived (RFC 9113 8.1: a complete response may be
                 # sent before the request is complete, optionally followed by RST_STREAM(NO_ERROR)); no credit for the rest
